@@ -33,8 +33,8 @@ class Out:
         self.stats['viol:' + kind] += 1
 
 
-def run_sweep(chk, args, worker, cases=None, fams=None, flavour='asan', opts=(), defines=(), per_module=40, workname=None, procs=None):
-    tier = args.tier
+def run_sweep(chk, args, worker, cases=None, fams=None, flavour='asan', opts=(), defines=(), per_module=40, workname=None, procs=None, shape_tier=None):
+    tier = shape_tier or args.tier
     if cases is None:
         cases = typegen.cases(tier, fams)
     work = os.path.join(build.BUILD, workname or ('sw-%s-%d' % (chk.prop, os.getpid())))
